@@ -1,6 +1,6 @@
 """C04 — bigBed range queries miss no overlapping entry and return no disjoint one."""
 from vlib import CaseT
-from wbprop import WigBedProp
+from wbprop import WigBedProp, byte_level_check
 import bbgen
 
 
@@ -34,6 +34,9 @@ class C04(WigBedProp):
 
     def oracle(self, case, il):
         return bbgen.basic_ok(il) or bbgen.oracle_bed_queries(case, il)
+
+    def extra_checks(self, rep, tier, rng, workdir):
+        byte_level_check(self, rep, workdir)
 
 
 PROP = C04()
